@@ -44,6 +44,8 @@ type World struct {
 	placeBack    map[byte]value
 	servers      []*mserver
 	yieldOnRead  bool
+	yieldOnLock  bool
+	yieldOnFS    bool
 	fireBudget   int
 	tick         int64 // concrete logical clock used to order timers
 	fireBudgetOn bool
